@@ -22,7 +22,10 @@ Definition ev_reqs (ev : evt) : list N :=
   end.
 Definition q_reqs (l : list evt) : list N := flat_map ev_reqs l.
 Definition st_reqs (s : option pstate) : list N := match s with Some (Connecting r) => [r] | _ => [] end.
-Definition port_reqs (pt : list (N * pstate)) : list N := flat_map (fun x => st_reqs (Some (snd x))) pt.
+(** sum of a per-entry list over the port table *)
+Definition tab (f : N -> option pstate -> list N) (pt : list (N * pstate)) : list N :=
+  flat_map (fun x => f (fst x) (Some (snd x))) pt.
+Definition port_reqs (pt : list (N * pstate)) : list N := tab (fun _ s => st_reqs s) pt.
 
 Definition is_reply (r : N) (ev : evt) : bool :=
   match ev with EAccepted _ r' => r' =? r | ERejected r' _ => r' =? r | _ => false end.
@@ -36,6 +39,8 @@ Definition is_answered (o : option rlife) : bool := match o with Some RAnswered 
 Definition is_some {A} (o : option A) : bool := match o with Some _ => true | None => false end.
 Definition is_waiting (o : option cstate) : bool := match o with Some CWaiting => true | _ => false end.
 Definition is_connected (o : option pstate) : bool := match o with Some (Connected _) => true | _ => false end.
+Definition is_alive (l : life) : bool := match l with Alive => true | _ => false end.
+Definition is_portq (o : option rlife) : bool := match o with Some RPortQ => true | _ => false end.
 
 (** no [g]-event behind an [f]-event *)
 Fixpoint no_after {A} (f g : A -> bool) (l : list A) : Prop :=
@@ -60,6 +65,14 @@ Definition hget (hs : list (N * handle)) (p : N) : handle :=
 Lemma hget_insert hs p h q : hget (insert p h hs) q = if q =? p then h else hget hs q.
 Proof. unfold hget. rewrite lookup_insert. now destruct (q =? p). Qed.
 
+(** the requests sitting in the receive queue of port [k] (they die with the receiver) *)
+Definition pq_ent (hs : list (N * handle)) (k : N) (s : option pstate) : list N :=
+  match s with
+  | Some (Connected c) => if is_alive (h_rx (hget hs k)) then flat_map snd (rxq c) else []
+  | _ => []
+  end.
+Definition portq_reqs (hs : list (N * handle)) (pt : list (N * pstate)) : list N := tab (pq_ent hs) pt.
+
 Definition all4 (c : conn) : bool := tx_dropped c && rx_dropped c && negb (rx_open c) && rrx_dropped c.
 
 (** * Components of the invariant *)
@@ -73,26 +86,30 @@ Definition num_ok (al : list N) (cq chq : list evt) (pt : list (N * pstate)) : P
 Definition req_ok (out : list N) (reqs : list (N * rlife)) (chq : list evt) : Prop :=
   forall r, count (is_reply r) chq = b2n (is_answered (lookup r reqs)) /\ mem r out = is_some (lookup r reqs).
 
+(** a request is in state [RPortQ] iff it sits (once) in the receive queue of a port whose receiver is alive *)
+Definition portq_ok (hs : list (N * handle)) (pt : list (N * pstate)) (reqs : list (N * rlife)) : Prop :=
+  forall r, occ r (portq_reqs hs pt) = b2n (is_portq (lookup r reqs)).
+
 (** user handles, their notification events and the flags in the table *)
+Definition hok1 (h : handle) (has : bool) (chq : list evt) (st : option pstate) (p : N) : Prop :=
+  count (is_sd p) chq = b2n (is_queued (h_tx h)) /\
+  count (is_rd p) chq = b2n (is_queued (h_rx h)) /\
+  count (is_rc p) chq = b2n (is_queued (h_rxc h)) /\
+  no_after (is_rd p) (is_rc p) chq /\
+  (h_rx h = Gone -> h_rxc h <> Queued) /\
+  match st with
+  | Some (Connected c) =>
+      has = true /\
+      tx_dropped c = is_gone (h_tx h) /\ rx_dropped c = is_gone (h_rx h) /\ rx_closed c = is_gone (h_rxc h)
+  | _ => h_tx h = Gone /\ h_rx h = Gone
+  end.
 Definition handle_ok (hs : list (N * handle)) (chq : list evt) (pt : list (N * pstate)) : Prop :=
-  forall p,
-    let h := hget hs p in
-    count (is_sd p) chq = b2n (is_queued (h_tx h)) /\
-    count (is_rd p) chq = b2n (is_queued (h_rx h)) /\
-    count (is_rc p) chq = b2n (is_queued (h_rxc h)) /\
-    no_after (is_rd p) (is_rc p) chq /\
-    (h_rx h = Gone -> h_rxc h <> Queued) /\
-    match lookup p pt with
-    | Some (Connected c) =>
-        lookup p hs <> None /\
-        tx_dropped c = is_gone (h_tx h) /\ rx_dropped c = is_gone (h_rx h) /\ rx_closed c = is_gone (h_rxc h)
-    | _ => h_tx h = Gone /\ h_rx h = Gone
-    end.
+  forall p, hok1 (hget hs p) (is_some (lookup p hs)) chq (lookup p pt) p.
 
 (** receive buffers; a connected entry never has all four flags (it would have been freed) *)
 Definition buf_ok (buf : N) (pt : list (N * pstate)) : Prop :=
   forall p c, lookup p pt = Some (Connected c) ->
-    used c <= buf /\ count (fun x => x =? 0) (rxq c) <= b2n (negb (rx_open c)) /\ all4 c = false.
+    used c <= buf /\ count (fun x => fst x =? 0) (rxq c) <= b2n (negb (rx_open c)) /\ all4 c = false.
 
 Definition lq_ok (m : mux) : Prop :=
   lq_wait m <= cfg_connect_queue m + 1 /\ lq_nowait m <= cfg_connect_queue m + 1.
@@ -106,10 +123,11 @@ Record Inv (e : ep) : Prop := mk_Inv {
   inv_num : num_ok (alloc e) (cq e) (chq e) (ports (mx e));
   inv_req : req_ok (outstanding (mx e)) (requests e) (chq e);
   inv_h : handle_ok (handles e) (chq e) (ports (mx e));
+  inv_pq : portq_ok (handles e) (ports (mx e)) (requests e);
   inv_buf : buf_ok (cfg_buffer (mx e)) (ports (mx e));
   inv_lq : lq_ok (mx e);
   inv_keys : NoDup (map fst (ports (mx e)));
-  inv_conn : conn_ok (connects e) (cq e) (chq e) (ports (mx e))
+  inv_conn : goodbye_sent (mx e) && goodbye_received (mx e) = false -> conn_ok (connects e) (cq e) (chq e) (ports (mx e))
 }.
 
 Record WF (e : ep) : Prop := mk_WF {
@@ -128,24 +146,198 @@ Lemma q_reqs_cons x l : q_reqs (x :: l) = ev_reqs x ++ q_reqs l. Proof. reflexiv
 Lemma b2n_le1 b : b2n b <= 1. Proof. destruct b; cbn [b2n]; lia. Qed.
 Lemma isK_le1 {A} (o : option A) : isK o <= 1. Proof. destruct o; cbn [isK]; lia. Qed.
 
-(** [port_reqs] under table updates (keys are unique) *)
-Lemma port_reqs_remove req k pt :
-  NoDup (map fst pt) ->
-  occ req (port_reqs (remove k pt)) + occ req (st_reqs (lookup k pt)) = occ req (port_reqs pt).
+(** [tab] under table updates (keys are unique) *)
+Lemma tab_remove f r k pt :
+  NoDup (map fst pt) -> (forall k, f k None = []) ->
+  occ r (tab f (remove k pt)) + occ r (f k (lookup k pt)) = occ r (tab f pt).
 Proof.
-  induction pt as [|[k1 v] pt IH]; cbn [remove lookup map fst]; intros Hn.
-  - reflexivity.
+  intros Hn Hf. induction pt as [|[k1 v] pt IH]; cbn [remove lookup map fst] in *.
+  - rewrite Hf. reflexivity.
   - inversion Hn as [|? ? Hx Hn']; subst. specialize (IH Hn').
-    unfold port_reqs in *. cbn [flat_map snd]. destruct (k =? k1) eqn:E.
+    unfold tab in *. cbn [flat_map snd fst]. destruct (k =? k1) eqn:E.
     + apply N.eqb_eq in E. subst k1. rewrite occ_app.
       assert (lookup k pt = None) as Hl by now apply lookup_None_keys.
-      rewrite Hl in IH. change (st_reqs None) with (@nil N) in IH. rewrite occ_nil in IH. lia.
-    + cbn [flat_map snd]. rewrite !occ_app. lia.
+      rewrite Hl, Hf, occ_nil in IH. lia.
+    + cbn [flat_map snd fst]. rewrite !occ_app. lia.
 Qed.
-Lemma port_reqs_insert req k v pt :
-  NoDup (map fst pt) ->
-  occ req (port_reqs (insert k v pt)) + occ req (st_reqs (lookup k pt)) = occ req (port_reqs pt) + occ req (st_reqs (Some v)).
+Lemma tab_insert f r k v pt :
+  NoDup (map fst pt) -> (forall k, f k None = []) ->
+  occ r (tab f (insert k v pt)) + occ r (f k (lookup k pt)) = occ r (tab f pt) + occ r (f k (Some v)).
 Proof.
-  intros Hn. pose proof (port_reqs_remove req k pt Hn) as H. unfold insert, port_reqs in *.
-  cbn [flat_map snd]. rewrite occ_app. lia.
+  intros Hn Hf. pose proof (tab_remove f r k pt Hn Hf) as H. unfold insert, tab in *.
+  cbn [flat_map snd fst]. rewrite occ_app. lia.
+Qed.
+Lemma tab_ext f g pt : (forall k v, In k (map fst pt) -> f k v = g k v) -> tab f pt = tab g pt.
+Proof.
+  induction pt as [|[k1 v] pt IH]; intros H; unfold tab in *; cbn [flat_map fst snd map In] in *; [reflexivity|].
+  f_equal; [apply H; auto|]. apply IH. intros k v0 Hl. apply H. auto.
+Qed.
+(** two per-entry functions that differ only at key [p] *)
+Lemma tab_change f g r p pt :
+  NoDup (map fst pt) -> (forall k, f k None = []) -> (forall k, g k None = []) ->
+  (forall k v, k <> p -> f k v = g k v) ->
+  occ r (tab f pt) + occ r (g p (lookup p pt)) = occ r (tab g pt) + occ r (f p (lookup p pt)).
+Proof.
+  intros Hn Hf Hg Hfg. pose proof (tab_remove f r p pt Hn Hf) as H1. pose proof (tab_remove g r p pt Hn Hg) as H2.
+  assert (tab f (remove p pt) = tab g (remove p pt)) as E.
+  { apply tab_ext. intros k v Hk. apply keys_remove in Hk. apply Hfg. tauto. }
+  rewrite E in H1. lia.
+Qed.
+
+Lemma pq_ent_None hs k : pq_ent hs k None = []. Proof. reflexivity. Qed.
+Lemma st_reqs_None (k : N) : (fun (_ : N) s => st_reqs s) k None = []. Proof. reflexivity. Qed.
+
+(** * Helpers for the list-valued actions *)
+Lemma lookup_fold_insert {A} (st : A) rs reqs r :
+  lookup r (fold_left (fun acc r => insert r st acc) rs reqs) = if mem r rs then Some st else lookup r reqs.
+Proof.
+  revert reqs. induction rs as [|x rs IH]; intros reqs; cbn [fold_left mem]; [reflexivity|].
+  rewrite IH, lookup_insert. destruct (r =? x); cbn [orb]; [|reflexivity]. now destruct (mem r rs).
+Qed.
+
+Definition nodupb : list N -> bool :=
+  fix nodup (l : list N) : bool := match l with [] => true | x :: r => negb (mem x r) && nodup r end.
+Lemma nodupb_occ l r : nodupb l = true -> occ r l = b2n (mem r l).
+Proof.
+  induction l as [|x l IH]; cbn [nodupb mem]; [reflexivity|]. intros H.
+  apply andb_true_iff in H as [H1 H2]. apply negb_true_iff in H1. specialize (IH H2).
+  rewrite occ_cons, (N.eqb_sym x r). destruct (r =? x) eqn:E; cbn [orb b2n].
+  - apply N.eqb_eq in E. subst x. apply occ_mem in H1. lia.
+  - lia.
+Qed.
+
+Definition all_fresh_go (maxp : N) : list N -> list N -> bool :=
+  fix go (l : list N) (a : list N) : bool :=
+    match l with
+    | [] => true
+    | p :: r => negb (mem p a) && (len a <? maxp) && go r (p :: a)
+    end.
+Lemma all_fresh_go_spec maxp l a :
+  all_fresh_go maxp l a = true -> NoDup a -> len a <= maxp ->
+  NoDup (rev l ++ a) /\ len (rev l ++ a) <= maxp /\
+  forall p, occ p l + b2n (mem p a) = b2n (mem p (rev l ++ a)).
+Proof.
+  revert a. induction l as [|x l IH]; intros a H Hn Hl; cbn [all_fresh_go rev app] in *.
+  - repeat split; auto.
+  - apply andb_true_iff in H as [H H3]. apply andb_true_iff in H as [H1 H2].
+    apply negb_true_iff in H1. apply N.ltb_lt in H2.
+    destruct (IH (x :: a) H3) as (I1 & I2 & I3).
+    + constructor; [now apply mem_false_In|exact Hn].
+    + rewrite len_cons. lia.
+    + rewrite <- app_assoc. cbn [app]. repeat split; auto.
+      intros p. specialize (I3 p). rewrite occ_cons. cbn [mem] in I3. rewrite (N.eqb_sym x p).
+      destruct (p =? x) eqn:E; cbn [orb b2n] in *; [|lia].
+      apply N.eqb_eq in E. subst x. rewrite H1. cbn [b2n]. lia.
+Qed.
+Lemma all_fresh_spec e nums :
+  all_fresh e nums = true -> NoDup (alloc e) -> len (alloc e) <= max_ports e ->
+  NoDup (rev nums ++ alloc e) /\ len (rev nums ++ alloc e) <= max_ports e /\
+  forall p, occ p nums + b2n (mem p (alloc e)) = b2n (mem p (rev nums ++ alloc e)).
+Proof. apply all_fresh_go_spec. Qed.
+
+(** pushing an event that does not concern handles / replies *)
+Definition neutral_h (p : N) (ev : evt) : Prop := is_sd p ev = false /\ is_rd p ev = false /\ is_rc p ev = false.
+Lemma hok1_push h has chq st p ev : neutral_h p ev -> hok1 h has chq st p -> hok1 h has (chq ++ [ev]) st p.
+Proof.
+  intros (E1 & E2 & E3) (H1 & H2 & H3 & H4 & H5). unfold hok1.
+  rewrite !count_snoc, E1, E2, E3. cbn [b2n]. rewrite !N.add_0_r.
+  repeat split; auto; try apply H5.
+  apply no_after_snoc; [exact H4|]. rewrite E3. discriminate.
+Qed.
+Lemma hok1_pop h has q st p ev : neutral_h p ev -> hok1 h has (ev :: q) st p -> hok1 h has q st p.
+Proof.
+  intros (E1 & E2 & E3) (H1 & H2 & H3 & H4 & H5). unfold hok1.
+  rewrite !count_cons, ?E1, ?E2, ?E3 in *. cbn [b2n] in *. rewrite !N.add_0_l in *.
+  repeat split; auto; try apply H5. apply H4.
+Qed.
+Lemma handle_ok_push hs chq pt ev :
+  (forall p, neutral_h p ev) -> handle_ok hs chq pt -> handle_ok hs (chq ++ [ev]) pt.
+Proof. intros Hev H p. apply hok1_push; auto. Qed.
+Lemma handle_ok_pop hs q pt ev :
+  (forall p, neutral_h p ev) -> handle_ok hs (ev :: q) pt -> handle_ok hs q pt.
+Proof. intros Hev H p. eapply hok1_pop; eauto. Qed.
+(** handle [p] changes and an event that concerns only [p] is pushed *)
+Lemma handle_ok_set_push hs chq pt p h' ev :
+  handle_ok hs chq pt -> (forall p0, p0 <> p -> neutral_h p0 ev) ->
+  hok1 h' true (chq ++ [ev]) (lookup p pt) p ->
+  handle_ok (insert p h' hs) (chq ++ [ev]) pt.
+Proof.
+  intros H Hev Hp p0. rewrite hget_insert, lookup_insert. destruct (p0 =? p) eqn:E.
+  - apply N.eqb_eq in E. subst p0. exact Hp.
+  - apply N.eqb_neq in E. apply hok1_push; auto.
+Qed.
+Lemma handle_ok_set hs chq pt p h' :
+  handle_ok hs chq pt -> hok1 h' true chq (lookup p pt) p -> handle_ok (insert p h' hs) chq pt.
+Proof.
+  intros H Hp p0. rewrite hget_insert, lookup_insert. destruct (p0 =? p) eqn:E.
+  - apply N.eqb_eq in E. subst p0. exact Hp.
+  - apply H.
+Qed.
+Lemma req_ok_push out reqs chq ev :
+  (forall r, is_reply r ev = false) -> req_ok out reqs chq -> req_ok out reqs (chq ++ [ev]).
+Proof. intros Hev H r. specialize (H r). rewrite count_snoc, Hev. cbn [b2n]. rewrite N.add_0_r. exact H. Qed.
+Lemma num_ok_push_chq al cq chq pt ev : ev_nums ev = [] -> num_ok al cq chq pt -> num_ok al cq (chq ++ [ev]) pt.
+Proof.
+  intros Hev H p. specialize (H p). rewrite q_nums_app, occ_app. cbn [q_nums flat_map]. rewrite Hev. cbn [app].
+  rewrite occ_nil. lia.
+Qed.
+Lemma num_ok_push_cq al cq chq pt ev : ev_nums ev = [] -> num_ok al cq chq pt -> num_ok al (cq ++ [ev]) chq pt.
+Proof.
+  intros Hev H p. specialize (H p). rewrite q_nums_app, occ_app. cbn [q_nums flat_map]. rewrite Hev. cbn [app].
+  rewrite occ_nil. lia.
+Qed.
+Lemma conn_ok_push_chq cs cq chq pt ev : ev_reqs ev = [] -> conn_ok cs cq chq pt -> conn_ok cs cq (chq ++ [ev]) pt.
+Proof.
+  intros Hev H p. specialize (H p). rewrite q_reqs_app, occ_app. cbn [q_reqs flat_map]. rewrite Hev. cbn [app].
+  rewrite occ_nil. lia.
+Qed.
+Lemma conn_ok_push_cq cs cq chq pt ev : ev_reqs ev = [] -> conn_ok cs cq chq pt -> conn_ok cs (cq ++ [ev]) chq pt.
+Proof.
+  intros Hev H p. specialize (H p). rewrite q_reqs_app, occ_app. cbn [q_reqs flat_map]. rewrite Hev. cbn [app].
+  rewrite occ_nil. lia.
+Qed.
+
+(** * Replacing a table entry *)
+Lemma num_ok_upd al cq chq pt p s s' :
+  lookup p pt = Some s -> num_ok al cq chq pt -> num_ok al cq chq (insert p s' pt).
+Proof.
+  intros Hl H p0. specialize (H p0). rewrite lookup_insert. destruct (p0 =? p) eqn:E; [|exact H].
+  apply N.eqb_eq in E. subst p0. rewrite Hl in H. exact H.
+Qed.
+Lemma conn_ok_upd cs cq chq pt p c c' :
+  NoDup (map fst pt) -> lookup p pt = Some (Connected c) ->
+  conn_ok cs cq chq pt -> conn_ok cs cq chq (insert p (Connected c') pt).
+Proof.
+  intros Hn Hl H r. specialize (H r). unfold port_reqs in *.
+  pose proof (tab_insert (fun _ s => st_reqs s) r p (Connected c') pt Hn st_reqs_None) as T. cbv beta in T.
+  rewrite Hl in T. cbn [st_reqs] in T. lia.
+Qed.
+Lemma buf_ok_upd buf pt p c' :
+  buf_ok buf pt ->
+  (used c' <= buf /\ count (fun x => fst x =? 0) (rxq c') <= b2n (negb (rx_open c')) /\ all4 c' = false) ->
+  buf_ok buf (insert p (Connected c') pt).
+Proof.
+  intros H Hc p0 c0. rewrite lookup_insert. destruct (p0 =? p); [|apply H]. intros [= <-]. exact Hc.
+Qed.
+Lemma portq_ok_upd hs pt reqs p c c' :
+  NoDup (map fst pt) -> lookup p pt = Some (Connected c) -> flat_map snd (rxq c') = flat_map snd (rxq c) ->
+  portq_ok hs pt reqs -> portq_ok hs (insert p (Connected c') pt) reqs.
+Proof.
+  intros Hn Hl Hq H r. specialize (H r). unfold portq_reqs in *.
+  pose proof (tab_insert (pq_ent hs) r p (Connected c') pt Hn (pq_ent_None hs)) as T.
+  rewrite Hl in T. assert (pq_ent hs p (Some (Connected c')) = pq_ent hs p (Some (Connected c))) as E.
+  { unfold pq_ent. now rewrite Hq. }
+  rewrite E in T. lia.
+Qed.
+Lemma hok1_conn h has chq c c' p :
+  tx_dropped c' = tx_dropped c -> rx_dropped c' = rx_dropped c -> rx_closed c' = rx_closed c ->
+  hok1 h has chq (Some (Connected c)) p -> hok1 h has chq (Some (Connected c')) p.
+Proof. intros E1 E2 E3. unfold hok1. rewrite E1, E2, E3. tauto. Qed.
+Lemma handle_ok_upd hs chq pt p c c' :
+  lookup p pt = Some (Connected c) ->
+  tx_dropped c' = tx_dropped c -> rx_dropped c' = rx_dropped c -> rx_closed c' = rx_closed c ->
+  handle_ok hs chq pt -> handle_ok hs chq (insert p (Connected c') pt).
+Proof.
+  intros Hl E1 E2 E3 H p0. specialize (H p0). rewrite lookup_insert. destruct (p0 =? p) eqn:E; [|exact H].
+  apply N.eqb_eq in E. subst p0. rewrite Hl in H. eapply hok1_conn; eauto.
 Qed.
